@@ -95,6 +95,18 @@ def base_conn(rng, i):
 
 
 MUTABLE_CONN = ['my_addr', 'peer_addr', 'my_auth', 'peer_auth', 'protect', 'encr', 'integ', 'prf', 'dh', 'lifetime', 'dpd']
+def _other_keys():
+    """Well-formed PEMs of key types other than RSA (what `openssl genpkey -algorithm EC / ED25519` writes): a key file is a key file for the loader."""
+    from cryptography.hazmat.primitives import serialization as ser
+    from cryptography.hazmat.primitives.asymmetric import ec, ed25519
+    out = {'private': [], 'public': []}
+    for key in (ec.generate_private_key(ec.SECP256R1()), ed25519.Ed25519PrivateKey.generate()):
+        out['private'].append(key.private_bytes(ser.Encoding.PEM, ser.PrivateFormat.PKCS8, ser.NoEncryption()).decode())
+        out['public'].append(key.public_key().public_bytes(ser.Encoding.PEM, ser.PublicFormat.SubjectPublicKeyInfo).decode())
+    return out
+
+
+OTHER_KEYS = _other_keys()
 MUTABLE_AUTH = ['id', 'psk', 'privkey', 'pubkey']
 MUTABLE_PROT = ['ipsec_proto', 'encr', 'integ', 'dh', 'mode', 'ip_proto', 'my_port', 'peer_port', 'my_subnet', 'peer_subnet', 'lifetime', 'index']
 UNKNOWN = {'encr': ['3des', 'aes192', 'AES256'], 'integ': ['md5', 'sha384'], 'prf': ['md5', 'sha384'], 'dh': ['2', 'modp1024', 22, '0'],
@@ -102,7 +114,7 @@ UNKNOWN = {'encr': ['3des', 'aes192', 'AES256'], 'integ': ['md5', 'sha384'], 'pr
 ODD = {'my_addr': ['203.0.113.9', '127.0.0.1', '::1', '0.0.0.0', '192.0.2.1/32', '999.1.1.1', 'not an address', '::ffff:192.0.2.1', '::ffff:c000:201', '::192.0.2.1', '::ffff:198.51.100.7', '2001:db8::1:0'], 'peer_addr': ['300.1.1.1', '', '::ffff:1.2.3.4', 'fe80::1%eth0'],
        'my_subnet': ['10.1.2.3/16', '10.0.0.0/33', 'abc', '::/0'], 'peer_subnet': ['10.1.2.3/16', 'xyz/24'], 'my_port': [-1, 65536, 70000, '23x'], 'peer_port': [-5, 99999],
        'lifetime': [0, -1, 'abc', 10 ** 12], 'dpd': [0, -3, 'x'], 'index': [-1, 0, 2 ** 29, 'x'], 'psk': ['', 'x' * 500, 'päss'], 'id': ['', 'a@b@c', '1.2.3', '::', 'x' * 300, '@gateway', 'gateway@', '@', 'user@[192.0.2.1]', '192.0.2.1@example.org'],
-       'privkey': ['garbage', ''], 'pubkey': ['-----BEGIN PUBLIC KEY-----\nAAAA\n-----END PUBLIC KEY-----\n']}
+       'privkey': ['garbage', ''] + OTHER_KEYS['private'], 'pubkey': ['-----BEGIN PUBLIC KEY-----\nAAAA\n-----END PUBLIC KEY-----\n'] + OTHER_KEYS['public']}
 
 
 def mutate(rng, conf):
